@@ -359,7 +359,8 @@ def run_axil(scn):
             op = ma.writes[k]
             d = dec(op["addr"])
             t_aw = ma.log["aw"][k][0]
-            accepted = d is not None and any(e[0] == t_aw and e[1] == op["addr"] for e in sag[d].log["aw"])
+            # a write is accepted by the slave only when both its address and its data were taken
+            accepted = d is not None and any(e[1] == op["addr"] and e[2] == op["data"] for e in sag[d].log["writes"])
             checks += 1
             if accepted:
                 nreal += 1
